@@ -225,13 +225,15 @@ class GaussianKDE(DensityEstimator):
         else:  # else just use the entire range of the samples
             lwr, upr = self.sample[0], self.sample[-1]
 
+        # search in terms of the offset from the lower bound, as the bounded
+        # optimiser's termination test is relative to the size of its argument
         result = minimize_scalar(
-            lambda x: -self(x),
-            bounds=[lwr, upr],
+            lambda dx: -self(lwr + dx),
+            bounds=[0.0, upr - lwr],
             method="bounded",
             options={"xatol": 1e-5 * (upr - lwr)},
         )
-        return result.x
+        return lwr + result.x
 
     def moments(self):
         """
